@@ -214,6 +214,21 @@ CHECKS["C08"] = dict(
     note=TRUST + "that the three-term/diagonal recurrences generate the associated Legendre functions and F(l,m)^2 = (l+m)!/(l-m)! is a textbook fact, "
          "not proved; sin/cos/sqrt/arctan2/arccos by their defining facts; derivative routine, scipy variant and solid_harmonics bounded only.",
     technique="contract-based deductive verification: AST symbolic execution with nested loop contracts (functional cut points), lemma chaining between invariant conjuncts, z3; bounded multiprecision oracle as labelled stand-in")
+CHECKS["C09"] = dict(
+    category="proof",
+    text="What the library composes is proved (symbolic numbers of shells, harmonics, grid and evaluation points; splines, harmonics, their derivatives "
+         "and the Cartesian->spherical conversion through contracts): the interpolant is sum_rows spline_row(r) Y_row(theta, phi) with harmonics up "
+         "to half the largest degree at the points' own angles; radial derivatives of order 1-3 and the spherical first derivatives are the "
+         "derivatives of that same sum (reductions matched term by term); convert_derivative_from_spherical_to_cartesian applies the inverse Jacobian "
+         "of the spherical parametrisation (chain-rule identities) with the documented conventions at r = 0; radial_component_splines: projection "
+         "onto the basis, band-limit cut per shell under a loop contract, one spline per harmonic over the radial nodes; "
+         "integrate_angular_coordinates: each shell gets the weighted sum over exactly its index-table segment without the radial factor. The "
+         "numerical statements (exact angular integrals of band-limited functions, splines through the knots, reproduction at grid points, "
+         "Cartesian gradients, molecular sums) rest on C02's data, SciPy's CubicSpline and C08 and are decided by the bounded layer; two recorded findings.",
+    design="8/C09",
+    note=TRUST + "CubicSpline, the harmonic routines and the shipped angular rules by contract; the branch for radial nodes at the origin, the Cartesian loop and "
+         "MolGrid.interpolate are bounded only.",
+    technique="contract-based deductive verification of the composition (AST symbolic execution with recording callee contracts, loop contract, reduction matching, polynomial identities), z3; bounded band-limited oracles as labelled stand-in")
 BOUNDED_ONLY = {
     "C09": ("8/C09", "band-limited decomposition/interpolation on atomic grids: angular integration, radial-component splines through knots, interpolant reproduces grid values, derivative self-consistency, polynomial reproduction, molecular interpolation"),
     "C07": ("8/C07", "molecular grid = weighted concatenation of atomic grids: index table, segments, weights = atweights x aim, views with store on/off, fan-out of from_size/from_preset/from_pruned against hand-built grids, default radial grids, end-to-end 1% clause on presets"),
